@@ -10,13 +10,14 @@ The third-party multidict package executes concretely (names are concrete).
 """
 from ..core import SymStr, B, zand
 from .common import Harness, Outcome, dialect, run_property, str_eq, veq
-from . import c03
+from . import c03, c08
 
 
-def same_items(a, b, level=0):
-    """a: new-style container, b: old-style container"""
+def same_items(a, b, level=0, newcls=True):
+    """a: new-style container, b: old-style container (newcls False: the caller's own parser decides the classes,
+    which are then the same on both sides)"""
     want = {"PVLModule": "PVLModuleNew", "PVLGroup": "PVLGroupNew", "PVLObject": "PVLObjectNew"}
-    if want.get(type(b).__name__) != type(a).__name__:
+    if (want.get(type(b).__name__) if newcls else type(b).__name__) != type(a).__name__:
         return False
     ia, ib = list(a.items()), list(b.items())
     if len(ia) != len(ib):
@@ -28,7 +29,7 @@ def same_items(a, b, level=0):
         if hasattr(v1, "items") or hasattr(v2, "items"):
             if not (hasattr(v1, "items") and hasattr(v2, "items")):
                 return False
-            conds.append(same_items(v1, v2, level + 1))
+            conds.append(same_items(v1, v2, level + 1, newcls))
         else:
             conds.append(veq(v1, v2))
     return zand(conds)
@@ -120,13 +121,92 @@ NEWCLS = {"Based": BasedNew, "Decimal": DecimalNew, "Quoted": QuotedNew, "Unquot
           "Blocks": BlocksNew}
 
 
+class GapsNew(c08.Gaps):
+    """texts the default loader tolerates although a value is missing (C08): pvl.new.loads must tolerate exactly
+    the same, with the same items, placeholders and errors list"""
+    prop = "C19"
+    functions = FUNCS
+    must_reach = ("parity",)
+
+    @property
+    def bounds(self):
+        return "pvl.new.loads against pvl.loads: " + c08.Gaps.bounds.fget(self)
+
+    def prop_fn(self, L, inp):
+        rm = list(inp["rm"])
+        ws = inp["ws"]
+        wcs = list(ws) if isinstance(ws, str) else [SymStr((c,)) if not isinstance(c, str) else c for c in ws.cs]
+        text = ""
+        for i, (t, ai, is_eq) in enumerate(self.tokens(rm)):
+            if i:
+                text = text + wcs[i - 1]
+            text = text + t
+        return parity(L, text, {})
+
+
+def parity(L, text, kw_of, newcls=True):
+    """same outcome class; when both load: same items at every level and the same errors list"""
+    def run(fn):
+        try:
+            return ("ok", fn(text, **(kw_of(L) if callable(kw_of) else kw_of)))
+        except L.exceptions.LexerError:
+            return ("LexerError", None)
+        except L.exceptions.ParseError:
+            return ("ParseError", None)
+    r_old, r_new = run(L.pvl.loads), run(L.new.loads)
+    if r_old[0] != r_new[0]:
+        return Outcome("parity", False, {"text": text, "old": r_old[0], "new": r_new[0]})
+    if r_old[0] != "ok":
+        return Outcome("parity", True, {"text": text, "both": r_old[0]})
+    eo, en = list(getattr(r_old[1], "errors", [])), list(getattr(r_new[1], "errors", []))
+    conds = [same_items(r_new[1], r_old[1], 0, newcls), len(eo) == len(en)]
+    if len(eo) == len(en):
+        from .common import int_eq
+        conds += [int_eq(a, b) for a, b in zip(eo, en)]
+    return Outcome("parity", zand(conds), {"text": text, "new": snap(r_new[1]), "old": snap(r_old[1])})
+
+
+KWARGS = {
+    "decoder_omni": lambda L: dict(decoder=L.decoder.OmniDecoder()),
+    "decoder_pvl": lambda L: dict(decoder=L.decoder.PVLDecoder()),
+    "decoder_odl": lambda L: dict(decoder=L.decoder.ODLDecoder()),
+    "grammar_pvl": lambda L: dict(grammar=L.grammar.PVLGrammar()),
+    "grammar_odl_decoder_odl": lambda L: dict(grammar=L.grammar.ODLGrammar(), decoder=L.decoder.ODLDecoder()),
+    "parser_pvl": lambda L: dict(parser=L.parser.PVLParser()),
+    "none": lambda L: {},
+}
+
+
+class Kwargs(Harness):
+    """the keyword arguments both entry points document (parser=, grammar=, decoder=): the same text with the same
+    arguments gives the same outcome and the same items"""
+    prop = "C19"
+    functions = FUNCS
+    must_reach = ("parity",)
+    alphabet = "omni"
+
+    @property
+    def bounds(self):
+        return ("pvl.new.loads against pvl.loads with keyword arguments %s: text 'a = x<c1><c2> <sep>b = 2<sep>' with two "
+                "unconstrained characters (alphabet 'omni') and a symbolic separator" % self.kwargs)
+
+    def inputs(self, ctx):
+        return {"c": ctx.fresh_str(self.n, "c"), "sep": SymStr([ctx.fresh_char("sep", ((10, 10), (32, 32), (59, 59)))])}
+
+    def prop_fn(self, L, inp):
+        text = "a = x" + inp["c"] + " " + inp["sep"] + "b = 2" + inp["sep"] + "END"
+        return parity(L, text, KWARGS[self.kwargs], newcls=not self.kwargs.startswith("parser"))
+
+
 def obligations(tier):
     obs = []
+    for t in c08.TEMPLATES:
+        obs.append(GapsNew(template=t, dialect="Omni"))
+    for k in KWARGS:
+        obs.append(Kwargs(kwargs=k, n=1 if tier == "quick" else 2))
     for o in c03.obligations(tier):
         if o.kw.get("dialect") != "Omni":
             continue
-        if "e" in str(o.kw.get("shape", "")).lower():
-            continue        # repr() of exponent-form floats is outside the engine's float model (dumps would be inconclusive)
         bits = 4 if (type(o).__name__ == 'Quoted' and o.kw.get('n', 0) >= 2) else 0
         obs.append(NEWCLS[type(o).__name__](tier=tier, shard_bits=bits, **o.kw))
     return obs
